@@ -388,6 +388,8 @@ def basis_batch(case):
     for meth in ("basis_rotation", "mapping_jacobian"):
         A = np.asarray(getattr(c, meth)(P), float)
         n += 1
+        if A.shape == (dim, dim):  # position independent (CartesianCoordinates return one matrix)
+            A = A.reshape(dim, dim, *([1] * len(shp)))
         try:
             A = np.broadcast_to(A, (dim, dim, *shp))
         except ValueError:
@@ -399,8 +401,11 @@ def basis_batch(case):
             if np.abs(A[(..., *idx)] - one).max() > 0:
                 bad(f"{meth} differs from point-wise call", f"point {P[idx].tolist()}")
                 break
-    R = np.broadcast_to(np.asarray(c.basis_rotation(P), float), (dim, dim, *shp))
-    comps = np.array(case["generic"], float)[: dim * int(np.prod(shp))].reshape(dim, *shp)
+    R = np.asarray(c.basis_rotation(P), float)
+    if R.shape == (dim, dim):
+        R = R.reshape(dim, dim, *([1] * len(shp)))
+    R = np.broadcast_to(R, (dim, dim, *shp))
+    comps = np.resize(np.array(case["generic"], float), (dim, *shp))
     try:
         got = np.asarray(c.vec_to_cart(P, comps), float)
         n += 1
@@ -417,15 +422,25 @@ def basis_batch(case):
 # ----------------------------------------------------------------------------------------------
 
 
+_GRID_CACHE = None  # only used inside `order_bundle` (mode J), never across independent cases
+
+
 def _grid(spec):
     import pde
 
+    key = _gdesc(spec)
+    if _GRID_CACHE is not None and key in _GRID_CACHE:
+        return _GRID_CACHE[key]
     cls = getattr(pde, spec["cls"])
     radius = spec["radius"]
     radius = tuple(radius) if isinstance(radius, (list, tuple)) else radius
     if spec["cls"] == "CylindricalSymGrid":
-        return cls(radius, tuple(spec["bounds_z"]), tuple(spec["shape"]), periodic_z=spec.get("periodic_z", False))
-    return cls(radius, spec["shape"])
+        g = cls(radius, tuple(spec["bounds_z"]), tuple(spec["shape"]), periodic_z=spec.get("periodic_z", False))
+    else:
+        g = cls(radius, spec["shape"])
+    if _GRID_CACHE is not None:
+        _GRID_CACHE[key] = g
+    return g
 
 
 def _own_geometry(spec):
@@ -453,11 +468,6 @@ def _cell_q(spec, angles):
         if name not in q:
             q[name] = 0 * mesh[0] + angles[name]
     return q
-
-
-def _gname(spec):
-    s = spec["cls"]
-    return s
 
 
 def _gdesc(spec):
@@ -709,7 +719,7 @@ def _c_operator(ctx):
         # which output components are wrong (named in the reference order)
         comp = np.argwhere(err.reshape(*exp.shape[: RANK_OUT[op]], -1).max(-1) > tol).tolist() if RANK_OUT[op] else []
         wrong = ["".join(ctx.ref[a] for a in c) for c in comp]
-        inp = "+".join(f"{f}*e_" + "".join(ctx.ref[a] for a in idx) for idx, f, w in terms)
+        inp = "+".join((f"{w:g}*" if w != 1 else "") + (f"{f}*e_" + "".join(ctx.ref[a] for a in idx) if idx else f"scalar {f}") for idx, f, w in terms)
         ctx.bad(
             "operator",
             f"{op}{_opt_str(opts)}|input {inp} has not the continuum result for the reference order",
@@ -733,74 +743,97 @@ def _unit(ctx, idx, w):
 
 
 def _c_products(ctx):
-    """all products in which the unit fields e_i (first) and e_j (second) take part"""
+    """all products in which the unit fields e_i (first) and e_j (second) take part.
+
+    ``i``/``j`` select one pair; ``pairs == "all"`` runs every pair with operators that are created
+    once (used in mode J, where creating an operator means compiling it).
+    """
     from pde import ScalarField, Tensor2Field, VectorField
 
-    g, i, j, d = ctx.grid, ctx.case["i"], ctx.case["j"], ctx.dim
+    g, d = ctx.grid, ctx.dim
     backend = ctx.case["backend"]
+    if ctx.case.get("pairs") == "all":
+        pairs = [(i, j) for i in range(d) for j in range(d)]
+    else:
+        pairs = [(ctx.case["i"], ctx.case["j"])]
+    kinds = ctx.case.get("kinds") or ["vv", "outer", "tv", "vt", "tt"]  # a subset only in mode J
     wa = _generic(ctx.case["seed"], g.shape, 2)
     wb = _generic(ctx.case["seed"], g.shape, 3)
     wc = _generic(ctx.case["seed"], g.shape, 4)
-    a, b = _unit(ctx, [i], wa), _unit(ctx, [j], wb)
     tol = TOL_EXACT * 10
+    cur = [0, 0]
 
     def check(what, got, exp, family):
         ctx.n += 1
         got = np.asarray(got)
         if got.shape != exp.shape or np.abs(got - exp).max() > tol:
-            nz = np.argwhere(np.abs(got).reshape(*got.shape[: got.ndim - len(g.shape)], -1).max(-1) > tol).tolist() if got.ndim > len(g.shape) else []
+            lead = got.ndim - len(g.shape)
+            nz = np.argwhere(np.abs(got).reshape(*got.shape[:lead], -1).max(-1) > tol).tolist() if lead > 0 else []
+            err = float(np.abs(got - exp).max()) if got.shape == exp.shape else "shape"
             ctx.bad(
                 family,
                 f"{backend}|{what}",
-                f"{what} for i={ctx.ref[i]}, j={ctx.ref[j]}: result has non-zero components {nz}, max error "
-                f"{np.abs(got - exp).max() if got.shape == exp.shape else 'shape'}",
+                f"{what} for i={ctx.ref[cur[0]]}, j={ctx.ref[cur[1]]}: result has non-zero components {nz}, max error {err}",
             )
 
+    outer = None
     if backend == "field":
-        va, vb = VectorField(g, a), VectorField(g, b)
         dot_vv = lambda x, y: VectorField(g, x).dot(VectorField(g, y)).data  # noqa: E731
         outer = lambda x, y: VectorField(g, x).outer_product(VectorField(g, y)).data  # noqa: E731
         dot_tv = lambda t, x: Tensor2Field(g, t).dot(VectorField(g, x)).data  # noqa: E731
         dot_vt = lambda x, t: VectorField(g, x).dot(Tensor2Field(g, t)).data  # noqa: E731
         dot_tt = lambda t, s: Tensor2Field(g, t).dot(Tensor2Field(g, s)).data  # noqa: E731
-        # by name: the (i, j) component of the outer product
-        T = va.outer_product(vb)
-        check("outer_product(e_i, e_j)[name_i, name_j]", T[ctx.ref[i], ctx.ref[j]].data, wa * wb, "outer_product")
-        check("outer_product(e_i, e_j).transpose()", T.transpose().data, _unit(ctx, [j, i], wa * wb), "outer_product")
-        check("trace(outer_product(e_i, e_j))", T.trace().data, (wa * wb) * (i == j), "outer_product")
-        check("e_i @ e_j", (va @ vb).data, (wa * wb) * (i == j), "dot")
-        assert isinstance(va @ vb, ScalarField)
     else:
-        vf, tf = VectorField(g, a), Tensor2Field(g, _unit(ctx, [i, j], wa))
+        vf, tf = VectorField(g, 0.0), Tensor2Field(g, 0.0)
+        dot_vv = dot_vt = vf.make_dot_operator(backend)
+        dot_tv = dot_tt = tf.make_dot_operator(backend)
         try:
-            dv = vf.make_dot_operator(backend)
-            dt = tf.make_dot_operator(backend)
-            op_outer = vf.make_outer_prod_operator(backend)
+            outer = vf.make_outer_prod_operator(backend)
         except NotImplementedError as e:
-            ctx.refs.append(f"backend {backend}: {str(e)[:80]}")
-            ctx.nt = False
-            return
-        dot_vv = dot_vt = dv
-        dot_tv = dot_tt = dt
-        outer = op_outer
-    check("dot(e_i, e_j)", dot_vv(a, b), (wa * wb) * (i == j), "dot")
-    check("outer_product(e_i, e_j)", outer(a, b), _unit(ctx, [i, j], wa * wb), "outer_product")
-    T = _unit(ctx, [i, j], wa)
-    for k in range(d):
-        ek = _unit(ctx, [k], wc)
-        # (e_i e_j^T) . e_k = delta_jk e_i ;   e_k . (e_i e_j^T) = delta_ki e_j
-        check(f"dot(e_i e_j^T, e_k)", dot_tv(T, ek), _unit(ctx, [i], wa * wc) * (j == k), "dot")
-        check(f"dot(e_k, e_i e_j^T)", dot_vt(ek, T), _unit(ctx, [j], wa * wc) * (i == k), "dot")
-        for l in range(d):
-            S = _unit(ctx, [k, l], wc)
-            check(f"dot(e_i e_j^T, e_k e_l^T)", dot_tt(T, S), _unit(ctx, [i, l], wa * wc) * (j == k), "dot")
+            if "outer" in kinds:
+                ctx.refs.append(f"make_outer_prod_operator({backend!r}): NotImplementedError {str(e)[:60]}")
+    if "outer" not in kinds:
+        outer = None
+    for i, j in pairs:
+        cur[:] = [i, j]
+        a, b = _unit(ctx, [i], wa), _unit(ctx, [j], wb)
+        if backend == "field" and "outer" in kinds and "vv" in kinds:
+            va, vb = VectorField(g, a), VectorField(g, b)
+            T = va.outer_product(vb)
+            # by name: the (name_i, name_j) component of the outer product
+            check("outer_product(e_i, e_j)[name_i, name_j]", T[ctx.ref[i], ctx.ref[j]].data, wa * wb, "outer_product")
+            check("outer_product(e_i, e_j).transpose()", T.transpose().data, _unit(ctx, [j, i], wa * wb), "outer_product")
+            check("trace(outer_product(e_i, e_j))", T.trace().data, (wa * wb) * (i == j), "outer_product")
+            res = va @ vb
+            check("e_i @ e_j", res.data, (wa * wb) * (i == j), "dot")
+            if not isinstance(res, ScalarField):
+                ctx.bad("dot", "field|vector @ vector is not a ScalarField", type(res).__name__)
+        if "vv" in kinds:
+            check("dot(e_i, e_j)", dot_vv(a, b), (wa * wb) * (i == j), "dot")
+        if outer is not None:
+            check("outer_product(e_i, e_j)", outer(a, b), _unit(ctx, [i, j], wa * wb), "outer_product")
+        T = _unit(ctx, [i, j], wa)
+        for k in range(d):
+            ek = _unit(ctx, [k], wc)
+            # (e_i e_j^T) . e_k = delta_jk e_i ;   e_k . (e_i e_j^T) = delta_ki e_j
+            if "tv" in kinds:
+                check("dot(e_i e_j^T, e_k)", dot_tv(T, ek), _unit(ctx, [i], wa * wc) * (j == k), "dot")
+            if "vt" in kinds:
+                check("dot(e_k, e_i e_j^T)", dot_vt(ek, T), _unit(ctx, [j], wa * wc) * (i == k), "dot")
+            for l in range(d):
+                if "tt" not in kinds:
+                    break
+                S = _unit(ctx, [k, l], wc)
+                check("dot(e_i e_j^T, e_k e_l^T)", dot_tt(T, S), _unit(ctx, [i, l], wa * wc) * (j == k), "dot")
     # superposition (the maps are bilinear: unit fields are a determining set)
     ga = _generic(ctx.case["seed"], (d, *g.shape), 5)
     gb = _generic(ctx.case["seed"], (d, *g.shape), 6)
     exp = sum(ga[m] * gb[m] for m in range(d))
-    check("dot of generic fields", dot_vv(ga, gb), exp, "dot")
-    exp = np.stack([np.stack([ga[m] * gb[n] for n in range(d)]) for m in range(d)])
-    check("outer product of generic fields", outer(ga, gb), exp, "outer_product")
+    if "vv" in kinds:
+        check("dot of generic fields", dot_vv(ga, gb), exp, "dot")
+    if outer is not None:
+        exp = np.stack([np.stack([ga[m] * gb[n] for n in range(d)]) for m in range(d)])
+        check("outer product of generic fields", outer(ga, gb), exp, "outer_product")
 
 
 # -- conversion to Cartesian ---------------------------------------------------------------------
@@ -872,7 +905,16 @@ def _target(ctx, spec):
     from pde import CartesianGrid
 
     if "mode" in spec:
-        return ctx.grid.get_cartesian_grid(mode=spec["mode"])
+        try:
+            return ctx.grid.get_cartesian_grid(mode=spec["mode"])
+        except TypeError as e:
+            # side observation (not part of C19): Polar/SphericalSymGrid.get_cartesian_grid fails for grids
+            # with a hole (`round` of an array, since `radius` is a tuple).  Use the grid it documents.
+            ctx.refs.append(f"{ctx.cls}(hole).get_cartesian_grid: TypeError {str(e)[:60]}")
+            r_in, r_out = _rin_rout(ctx.spec)
+            b = r_out / math.sqrt(ctx.dim) if spec["mode"] == "valid" else r_out
+            dr = (r_out - r_in) / ctx.spec["shape"]
+            return CartesianGrid([[-b, b]] * ctx.dim, 2 * round(b / dr))
     return CartesianGrid(spec["bounds"], spec["shape"])
 
 
@@ -983,7 +1025,38 @@ def _refined(spec, fac):
     return s
 
 
+def _max_second_derivatives(fkey, region):
+    """max |d^2 f / dr^2| and max |d^2 f / dz^2| of a coefficient function over a (r[, z]) region,
+    from second differences (step 1e-3: truncation 1e-7 |f''''|, round-off 1e-9) on 41 x 41 samples;
+    inflated by 1 %"""
+    rs = np.linspace(*region["r"], 41)
+    zs = np.linspace(*region["z"], 41) if "z" in region else np.array([0.0])
+    R, Z = np.meshgrid(rs, zs, indexing="ij")
+    f = COEF[fkey]
+    d = 1e-3
+    q = lambda r, z: {"r": r, "z": z}  # noqa: E731
+    m_r = np.abs(f(q(R + d, Z)) - 2 * f(q(R, Z)) + f(q(R - d, Z))).max() / d**2
+    m_z = np.abs(f(q(R, Z + d)) - 2 * f(q(R, Z)) + f(q(R, Z - d))).max() / d**2 if "z" in region else 0.0
+    return 1.01 * float(m_r) + 1e-8, 1.01 * float(m_z) + (1e-8 if "z" in region else 0.0)
+
+
 def _c_commute(ctx):
+    """Conversion to a Cartesian grid commutes with divergence / gradient up to discretisation error.
+
+    Both legs are compared with the continuum object on the refinement pair N -> 2N of the
+    curvilinear grid; the Cartesian target (spacing H) is fixed.
+
+    * ``op_first``  (curvilinear operator, then conversion): the error is the smooth O(h^2)
+      truncation error of the operator; criterion: it shrinks by >= 3 (theory 4; observed 3.9-4.1).
+    * ``convert_first`` (conversion, then the Cartesian operator D_H): compared with D_H applied to the
+      exact Cartesian image sampled on the target, so that the O(H^2) error of D_H cancels and
+      got - ref = D_H(conv(I_h v) - V).  The interpolation error of bilinear interpolation is
+      |I_h f - f| <= h_r^2/8 max|f_rr| + h_z^2/8 max|f_zz| =: eps(f) and is *not* smooth (it depends on
+      the position of the target point inside the source cell), so ratios are erratic; instead the
+      error must stay below the rigorous, quadratically shrinking envelope
+          divergence:  (sum_c eps(v_c)) * sum_k 1/H_k          gradient:  eps(s) / min_k H_k
+      at both N and 2N (a wrong component assignment is an O(1) error that does not shrink).
+    """
     from pde import ScalarField, VectorField
 
     case = ctx.case
@@ -991,8 +1064,9 @@ def _c_commute(ctx):
     terms = case["terms"]  # vector: [[name, f, w]...]; scalar: [[[], f, w]]
     named = [[[n] if isinstance(n, str) else n, f, w] for n, f, w in terms]
     F = _cart_field(ctx.kind, named)
-    errs, errs_d7 = [], []
+    errs, errs_d7, bounds = [], [], []
     vector_conversion = (op == "divergence" and leg == "convert_first") or (op == "gradient" and leg == "op_first")
+    is_cyl = ctx.cls == "CylindricalSymGrid"
     for fac in (1, 2):
         spec = _refined(ctx.spec, fac)
         sub = _Ctx({"grid": spec, "angles": ctx.angles})
@@ -1001,17 +1075,16 @@ def _c_commute(ctx):
         X, q = _target_q(sub, tgt)
         inner = tuple(slice(1, -1) for _ in tgt.shape)
         cq = _cell_q(spec, ctx.angles)
+        ref_d7 = None
         if op == "divergence":
             v = VectorField(g, np.stack([sum(w * COEF[f](cq) for n, f, w in terms if n == name) + 0 * cq["r"] for name in sub.ref]))
             if leg == "op_first":
                 got = v.divergence("auto_periodic_neumann").interpolate_to_grid(tgt).data
                 ref, _ = _cart_operator("divergence", F, X)
-                ref_d7 = None
             else:
                 got = v.interpolate_to_grid(tgt).divergence("auto_periodic_neumann").data[inner]
                 ref = VectorField(tgt, np.moveaxis(F(X), -1, 0)).divergence("auto_periodic_neumann").data[inner]
-                ref_d7 = None
-                if ctx.cls == "CylindricalSymGrid":
+                if is_cyl:
                     swapped = [[[CYL_COORD_ORDER[sub.ref.index(n)]], f, w] for n, f, w in terms]
                     Fd = _cart_field(ctx.kind, swapped)
                     ref_d7 = VectorField(tgt, np.moveaxis(Fd(X), -1, 0)).divergence("auto_periodic_neumann").data[inner]
@@ -1021,44 +1094,57 @@ def _c_commute(ctx):
                 got = s.gradient("auto_periodic_neumann").interpolate_to_grid(tgt).data
                 val, _ = _cart_operator("gradient", F, X)
                 ref = np.moveaxis(val, -1, 0)
-                ref_d7 = None
-                if ctx.cls == "CylindricalSymGrid":
+                if is_cyl:
                     gc = _project(ctx.kind, sub.ref, q, val)  # exact components in the reference order
                     ref_d7 = np.moveaxis(_named_image(sub, {n: gc[k] for k, n in enumerate(CYL_COORD_ORDER)}, q), -1, 0)
             else:
                 got = s.interpolate_to_grid(tgt).gradient("auto_periodic_neumann").data[(..., *inner)]
                 ref = ScalarField(tgt, F(X)).gradient("auto_periodic_neumann").data[(..., *inner)]
-                ref_d7 = None
         ctx.n += 2
         errs.append(float(np.abs(got - ref).max()))
         if ref_d7 is not None:
             errs_d7.append(float(np.abs(got - ref_d7).max()))
         scale = max(1.0, float(np.abs(ref).max()))
+        if leg == "convert_first":
+            # envelope of the interpolation error (see docstring)
+            centres, _ = _own_geometry(spec)
+            h = {a: float(c[1] - c[0]) for a, c in centres.items()}
+            region = {a: (float(q[a].min()) - h[a], float(q[a].max()) + h[a]) for a in centres}
+            eps = 0.0
+            for _, f, w in terms:
+                m_r, m_z = _max_second_derivatives(f, region)
+                eps += abs(w) * (h["r"] ** 2 / 8 * m_r + (h["z"] ** 2 / 8 * m_z if "z" in h else 0.0))
+            H = [(float(hi) - float(lo)) / n for (lo, hi), n in zip(tgt.axes_bounds, tgt.shape)]
+            bounds.append(eps * sum(1 / x for x in H) if op == "divergence" else eps / min(H))
     floor = 1e-9 * scale
 
-    def converges(e):
-        return e[1] <= max(e[0] / 3, floor)
+    def holds(e):
+        if leg == "op_first":
+            return e[1] <= max(e[0] / 3, floor)
+        return all(e[k] <= bounds[k] + floor for k in range(2))
 
-    ctx.info = {"errors": errs}
-    if converges(errs):
-        ctx.out = f"ratio>=3" if errs[1] > floor else "exact"
+    ctx.info = {"errors": errs, "bounds": bounds}
+    if holds(errs):
+        ctx.out = "exact" if errs[1] <= floor else ("ratio>=3" if leg == "op_first" else "below envelope")
         return
     what = f"{op} / {'operate then convert' if leg == 'op_first' else 'convert then operate'}"
+    crit = "does not shrink by >= 3" if leg == "op_first" else f"exceeds the interpolation envelope {bounds[0]:.3g} (N), {bounds[1]:.3g} (2N)"
     msg = (
-        f"commutation {what} for field {_terms_str([[n if isinstance(n, str) else 's', f, w] for n, f, w in terms])}: error against the continuum "
-        f"{errs[0]:.3g} (N) -> {errs[1]:.3g} (2N) does not shrink by >= 3 (scale {scale:.3g})"
+        f"commutation {what} for field {_terms_str([[n if isinstance(n, str) else 's', f, w] for n, f, w in terms])}: "
+        f"error against the continuum {errs[0]:.3g} (N) -> {errs[1]:.3g} (2N) {crit} (scale {scale:.3g})"
     )
-    if vector_conversion and errs_d7 and converges(errs_d7):
+    if vector_conversion and errs_d7 and holds(errs_d7):
         ctx.bad_sig(
             f"{D7}|commutation {what}",
             msg + f" -- but converges ({errs_d7[0]:.3g} -> {errs_d7[1]:.3g}) to the image contracted in coordinate-system order (r,phi,z)",
             errors=errs,
             errors_d7=errs_d7,
+            bounds=bounds,
         )
         ctx.out = "D7"
         return
     part = "to_cartesian" if vector_conversion else "commutation"
-    ctx.bad(part, f"other|commutation {what}", msg, errors=errs, errors_d7=errs_d7)
+    ctx.bad(part, f"other|commutation {what}", msg, errors=errs, errors_d7=errs_d7, bounds=bounds)
 
 
 CLAUSES = {
@@ -1084,6 +1170,31 @@ def order(case):
     if getattr(ctx, "info", None):
         res["info"] = ctx.info
     return res
+
+
+def order_bundle(case):
+    """mode J: several `order` cases in one worker sharing the grid objects, so that an operator is
+    compiled once per grid (py-pde caches compiled operators per grid object).  Violations carry
+    the single sub-case for replay."""
+    global _GRID_CACHE
+    _GRID_CACHE = {}
+    agg = {"v": [], "n": 0, "keys": [], "outs": [], "ref": []}
+    try:
+        for sub in case["cases"]:
+            res = order(sub)
+            for v in res["v"]:
+                v.setdefault("case", sub)
+                v.setdefault("fn", FN_ORDER)
+            agg["v"] += res["v"]
+            agg["n"] += res["n"]
+            agg["outs"] += res["outs"]
+            agg["ref"] += list(res.get("ref") or [])
+            if res.get("nt", True):
+                agg["keys"].append(json.dumps(sub, sort_keys=True, ensure_ascii=False))
+    finally:
+        _GRID_CACHE = None
+    agg["nt"] = bool(agg["keys"])
+    return agg
 
 
 # ----------------------------------------------------------------------------------------------
@@ -1260,27 +1371,34 @@ def _order_cases(tier, seed, angles):
 def _commute_cases(tier, seed, angles):
     amp = (0.75 + 0.5 * np.random.default_rng([int(seed), 19]).random(3)).round(3).tolist()
     cases = []
-    pairs = [1] if tier == "quick" else [1, 2]  # N -> 2N and 2N -> 4N
+    # coarse level N of the pair N -> 2N; targets are coarse (H >> h) and at least two coarse cells
+    # away from every boundary of the curvilinear grid and from the axis
+    levels = [32] if tier == "quick" else [16, 32, 64]
     for cls in REF:
         for radius in (3, [1, 3]):
-            for m in pairs:
+            for n in levels:
                 if cls == "CylindricalSymGrid":
-                    spec = {"cls": cls, "radius": radius, "shape": [16 * m, 12 * m], "bounds_z": [-1, 2], "periodic_z": False}
+                    spec = {"cls": cls, "radius": radius, "shape": [n, 3 * n // 4], "bounds_z": [-1, 2], "periodic_z": False}
                 else:
-                    spec = {"cls": cls, "radius": radius, "shape": 16 * m}
-                # boxes at least two coarse cells away from every boundary and from the axis
+                    spec = {"cls": cls, "radius": radius, "shape": n}
                 if cls == "PolarSymGrid":
-                    tg = [{"bounds": [[1.0, 1.8], [-1.8, -1.0]], "shape": [4, 5]}, {"bounds": [[-1.8, -1.0], [1.0, 1.8]], "shape": [5, 4]}]
+                    tg = [{"bounds": [[0.9, 1.8], [-1.8, -1.0]], "shape": [3, 4]}, {"bounds": [[-1.8, -1.0], [0.9, 1.8]], "shape": [4, 3]}]
                     vec = [["r", "P_r", amp[0]], ["φ", "P_φ", amp[1]]]
                     sca = [[[], "P_s", amp[0]]]
                     div_first = vec
                 elif cls == "SphericalSymGrid":
-                    tg = [{"bounds": [[1.0, 1.6], [-1.6, -1.0], [0.2, 1.0]], "shape": [4, 5, 3]}, {"bounds": [[-1.6, -1.0], [1.0, 1.6], [-1.0, -0.2]], "shape": [5, 4, 3]}]
+                    tg = [
+                        {"bounds": [[0.9, 1.6], [-1.6, -1.0], [0.1, 1.0]], "shape": [3, 4, 3]},
+                        {"bounds": [[-1.6, -1.0], [0.9, 1.6], [-1.0, -0.1]], "shape": [4, 3, 3]},
+                    ]
                     vec = [["r", "S_r", amp[0]], ["θ", "S_θ", amp[1]], ["φ", "S_φ", amp[2]]]
                     div_first = [["r", "S_r", amp[0]]]  # the operators refuse non-radial components
                     sca = [[[], "S_s", amp[0]]]
                 else:
-                    tg = [{"bounds": [[1.0, 1.8], [-1.8, -1.0], [-0.4, 1.4]], "shape": [4, 5, 4]}, {"bounds": [[-1.8, -1.0], [1.0, 1.8], [-0.4, 1.4]], "shape": [5, 4, 3]}]
+                    tg = [
+                        {"bounds": [[0.9, 1.8], [-1.8, -1.0], [-0.4, 1.4]], "shape": [3, 4, 3]},
+                        {"bounds": [[-1.8, -1.0], [0.9, 1.8], [-0.4, 1.4]], "shape": [4, 3, 4]},
+                    ]
                     vec = [["r", "C_r", amp[0]], ["z", "C_z", amp[1]], ["φ", "C_φ", amp[2]]]
                     sca = [[[], "C_s", amp[0]]]
                     div_first = vec
@@ -1298,24 +1416,32 @@ def _commute_cases(tier, seed, angles):
     return cases
 
 
-def _jit_subset(cases):
-    """mode J: code that exists only under JIT (dot_ol / outer_ol overloads, compiled interpolator,
-    compiled operators) - one smallest grid per class, every index"""
-    seen_grid = {}
-    out = []
+def _jit_subset(cases, tier):
+    """mode J: code that exists only under JIT (dot_ol / outer_ol overloads of the numba backend,
+    compiled interpolator, compiled operators) - the smallest grid of every class (thorough: also
+    the smallest one with a hole), every index; bundled per (grid, clause, operator) so that each
+    operator is compiled once"""
+    first = {}
+    bundles = {}
     for c in cases:
-        cls = c["grid"]["cls"]
-        g = seen_grid.setdefault(cls, c["grid"])
-        if c["grid"] is not g:
+        hole = isinstance(c["grid"]["radius"], list)
+        if hole and tier == "quick":
+            continue
+        cls = c["grid"]["cls"] + ("(hole)" if hole else "")
+        g = first.setdefault(cls, c["grid"])
+        if c["grid"] != g:
             continue
         cl = c["clause"]
-        if cl == "products" and c["backend"] == "numba":
-            out.append(c)
+        if cl == "products" and c["backend"] == "numba" and (c["i"], c["j"]) == (0, 0):
+            for kind in ("vv", "outer", "tv", "vt", "tt"):  # one compilation each
+                sub = {k: v for k, v in c.items() if k not in ("i", "j")}
+                sub.update(pairs="all", kinds=[kind])
+                bundles.setdefault((cls, cl, kind), []).append(sub)
         elif cl == "tocart" and c["build"] == "index" and c["family"].startswith("unit") and "bounds" in c["target"] and c["target"]["bounds"][0][0] > 0:
-            out.append(c)
-        elif cl == "operator" and c["terms"][0][1] == "r" and c["op"] in ("gradient", "divergence", "vector_gradient") and not c["opts"].get("conservative"):
-            out.append(c)
-    return out
+            bundles.setdefault((cls, cl, ""), []).append(c)
+        elif cl == "operator" and c["terms"][0][1] == "r" and (tier != "quick" or (c["op"] in ("gradient", "divergence", "vector_gradient") and not c["opts"].get("conservative"))):
+            bundles.setdefault((cls, cl, c["op"]), []).append(c)
+    return [{"bundle": list(k), "cases": v} for k, v in bundles.items()]
 
 
 def main(run):
@@ -1326,7 +1452,7 @@ def main(run):
     points, batches = _basis_cases(run.tier, generic)
     ocases = _order_cases(run.tier, seed, angles)
     ccases = _commute_cases(run.tier, seed, angles)
-    jcases = _jit_subset(ocases)
+    jcases = _jit_subset(ocases, run.tier)
 
     def go(part, fn, cases, mode="I", **kw):
         if only and part not in only:
@@ -1337,7 +1463,7 @@ def main(run):
     go("bases_batch", FN_BATCH, batches)
     go("order", FN_ORDER, ocases)
     go("commute", FN_ORDER, ccases, chunksize=1)
-    go("order[J]", FN_ORDER, jcases, mode="J", chunksize=1, limit=900)
+    go("order[J]", "checks.c19:order_bundle", jcases, mode="J", chunksize=1, limit=900)
 
     run.notes["reference_order"] = REF
     run.notes["generic_angles_of_the_operator_oracle"] = angles
@@ -1347,7 +1473,7 @@ def main(run):
         "order (mode I)": len(ocases),
         "order by clause": {k: sum(1 for c in ocases if c["clause"] == k) for k in CLAUSES if k != "commute"},
         "commutation (refinement pairs)": len(ccases),
-        "order (mode J)": len(jcases),
+        "order (mode J)": f"{sum(len(b['cases']) for b in jcases)} cases in {len(jcases)} bundles",
         "grids": len(_grids(run.tier)),
     }
     run.notes["tolerances"] = {
